@@ -33,6 +33,7 @@ class Line:
         self.faults_applied = {"h2n": {}, "n2h": {}}
         self.closed = False
         self.on_frame = None  # harness hook: called with the index of each frame once armed
+        self.on_protocol_error = None  # set by the wire stack: models the transport's _fatal_error()
 
     # -- fault decision -------------------------------------------------------------------
     def _fault(self):
@@ -92,7 +93,8 @@ class Line:
         when = max(now + LATENCY, self.free_at[direction] + 1e-6)
         if fault == "stall":
             when += self.stall
-        units = [data, data] if fault == "dup" else [data]
+        # "dup": the copy arrives in a read of its own; "dup1": both copies arrive in one read
+        units = [data, data] if fault == "dup" else [data + data] if fault == "dup1" else [data]
         for u in units:
             chunks = [u] if self.chunking == "whole" else [u[i:i + 1] for i in range(len(u))]
             if self.chunking == "split2" and len(u) > 1:
@@ -106,7 +108,18 @@ class Line:
     def _deliver(self, direction, chunk):
         if self.closed:
             return
-        self.sink[direction](chunk)
+        if direction == "h2n" or self.on_protocol_error is None:
+            self.sink[direction](chunk)
+            return
+        try:
+            self.sink[direction](chunk)
+        except (SystemExit, KeyboardInterrupt):
+            raise
+        except BaseException as exc:  # noqa: BLE001
+            # what every asyncio transport does when protocol.data_received() raises:
+            # _fatal_error() -> the connection is force-closed and connection_lost(exc) follows
+            self.trace.append(("protocol_raised", self.loop.time(), repr(exc)[:200]))
+            self.on_protocol_error(exc)
 
 
 class HostTransport:
